@@ -174,3 +174,28 @@ Print Assumptions C20_glob_tree_prefix_inv.
 Check C20_glob_tree_prefix_inv :
   forall (g : glob) (ps : list (list Ascii.ascii)),
   match_comps (CTree :: g) ps = true -> exists pre suf, ps = pre ++ suf /\ match_comps g suf = true.
+
+Theorem C20_levels_agree :
+  forall (pattern path text block : Type) (matches : pattern -> path -> bool)
+         (parse : text -> option block) (bundle : path -> block -> option block)
+         (generate : block -> text -> text)
+         (rs : list (rule pattern path block)) (flt : filter pattern) (f : path) (src : text) (b0 b1 : block),
+  parse src = Some b0 -> bundle f b0 = Some b1 ->
+  (process_file matches parse bundle generate (Config flt (map unfiltered rs)) f src = Skipped <->
+   run_rules matches (map (with_filter flt) rs) f b1 = Some b1 /\ should_apply matches flt f = false) /\
+  (should_apply matches flt f = true ->
+   process_file matches parse bundle generate (Config flt (map unfiltered rs)) f src =
+   process_file matches parse bundle generate (Config no_filter (map (with_filter flt) rs)) f src).
+Proof. exact levels_agree. Qed.
+Print Assumptions C20_levels_agree.
+Check C20_levels_agree :
+  forall (pattern path text block : Type) (matches : pattern -> path -> bool)
+         (parse : text -> option block) (bundle : path -> block -> option block)
+         (generate : block -> text -> text)
+         (rs : list (rule pattern path block)) (flt : filter pattern) (f : path) (src : text) (b0 b1 : block),
+  parse src = Some b0 -> bundle f b0 = Some b1 ->
+  (process_file matches parse bundle generate (Config flt (map unfiltered rs)) f src = Skipped <->
+   run_rules matches (map (with_filter flt) rs) f b1 = Some b1 /\ should_apply matches flt f = false) /\
+  (should_apply matches flt f = true ->
+   process_file matches parse bundle generate (Config flt (map unfiltered rs)) f src =
+   process_file matches parse bundle generate (Config no_filter (map (with_filter flt) rs)) f src).
